@@ -292,8 +292,11 @@ def decode_TEXT(value):
     atoms = decode_header(value)
     decodedvalue = ''
     for atom, charset in atoms:
-        if charset is not None:
-            atom = atom.decode(charset)
+        if isinstance(atom, bytes):
+            # As soon as one encoded word is present, decode_header()
+            # returns every atom as bytes; the unencoded ones (charset
+            # None) are ISO-8859-1 like the rest of the header.
+            atom = atom.decode(charset or 'ISO-8859-1')
         decodedvalue += atom
     return decodedvalue
 
